@@ -569,8 +569,13 @@ func ruleMarkBeforeCreate(r *Report, rule string) {
 				if _, isNil, isT := errNilFact(info, f); isT && !isNil && isErrorType(info.TypeOf(nilTestOperand(info, f.Expr))) {
 					ok = true
 				}
-				if id, isID := ast.Unparen(f.Expr).(*ast.Ident); isID && f.Truth && id.Name == "skipped" {
-					ok = true
+				// the per-batch "introduction was skipped" flag: the value variable of a range over introStatus.skipped
+				if id, isID := ast.Unparen(f.Expr).(*ast.Ident); isID && f.Truth {
+					for _, anc := range enclosing(fi.Decl.Body, c) {
+						if rs, isRange := anc.(*ast.RangeStmt); isRange && rs.Value != nil && objOf(info, rs.Value) == info.ObjectOf(id) && isField(info, rs.X, "mergeTaskIntroStatus", "skipped") {
+							ok = true
+						}
+					}
 				}
 			}
 			r.Ob(rule, fi.Name+"/produced-file-unmarked-only-on-failure-or-skip", c.Pos(), ok, "the merger un-marks the file it produced only when the task failed or the introduction was skipped; otherwise the mark stays until a committed bolt snapshot names the file (guards: "+factsString(facts)+")")
